@@ -205,7 +205,7 @@ structure Tree where
   updatable : Id → Bool     -- isinstance(node, UPDATABLE_EXPRESSION_TYPES)
   nel : Id → Nat            -- class of `dict(_get_non_expression_leaves(node))` under `==`
   eqc : Id → Nat            -- class of the node under `Expr.__eq__`
-  idk : Id → Nat            -- class of the list of (arg key, Identifier) direct children under `==`
+  akey : Id → Nat           -- class of the node's `arg_key` (which argument of its parent holds it)
   txt : Id → Nat            -- class of the SQL text `_bigram_histo` renders for the node (only used by `DiceOk`)
   lay : Id → Nat            -- class of the child layout [(arg key, is-Identifier)] in `iter_expressions()` order
 
@@ -216,7 +216,8 @@ structure Params where
   lo : Nat × Nat            -- 0.4
   minLeaves : Nat           -- 4
   cmpIdents : Bool          -- does `_generate_edit_script` compare ignored (Identifier) children? (fix f25f43a)
-  countPre : Bool           -- do caller-matched leaves count in `leaf_similarity_score`? (proposed fix)
+  countPre : Bool           -- do caller-matched leaves count in `leaf_similarity_score`? (fix 8a55b44)
+  identsAsDict : Bool       -- does `_get_ignored_leaves` return a dict keyed by arg key (a seeded regression) instead of a list?
 
 /-- `Expr.bfs()` -/
 def bfsGo (kids : Id → List Id) : Nat → List Id → List Id
@@ -344,10 +345,27 @@ def movesOf (S T : Tree) (m : List (Id × Id)) (unmatchedS : List Id) (s t : Id)
     else moveEdits S T m unmatchedS s t
   else []
 
+/-- `_get_ignored_leaves(node)`: the ignored (Identifier) direct children in `iter_expressions()` order, each as
+    (class of its arg key, its class under `==`) — an ORDERED list with repetitions (several identifiers may sit in one
+    list argument, e.g. `USING (a, b)`) -/
+def Tree.idk (S : Tree) (x : Id) : List (Nat × Nat) :=
+  ((S.kids x).filter S.ignored).map fun k => (S.akey k, S.eqc k)
+
+/-- the value a Python dict built from the pairs holds for a key: the LAST pair with that key -/
+def dictGet (l : List (Nat × Nat)) (k : Nat) : Option Nat := (l.reverse.find? fun p => p.1 == k).map (·.2)
+
+/-- `==` of two dicts built from the pair lists (order-insensitive, later pairs overwrite earlier ones) -/
+def dictEq (a b : List (Nat × Nat)) : Bool :=
+  a.all (fun p => dictGet a p.1 == dictGet b p.1) && b.all (fun p => dictGet a p.1 == dictGet b p.1)
+
+/-- the comparison `_get_ignored_leaves(source_node) != _get_ignored_leaves(target_node)`, negated -/
+def identsEq (P : Params) (S T : Tree) (s t : Id) : Bool :=
+  if P.identsAsDict then dictEq (S.idk s) (T.idk t) else S.idk s == T.idk t
+
 /-- whether the pair ends in `Update` (else `Keep`) -/
 def isUpdateOf (P : Params) (S T : Tree) (s t : Id) : Bool :=
   if !S.updatable s || identical S T s t then
-    S.nel s != T.nel t || (P.cmpIdents && !identical S T s t && S.idk s != T.idk t)
+    S.nel s != T.nel t || (P.cmpIdents && !identical S T s t && !identsEq P S T s t)
   else true
 
 def envOf (P : Params) (S T : Tree) (dice : Id → Id → Nat) : Env where
